@@ -47,7 +47,38 @@ def rt(kind, obj, absfn, printer, parser, src):
         ev["text"] = ab.enc(text)
         if exc == "none":
             ev["parsed"] = absfn(obj2)
+            # history: the first parse result is changed in place, then the SAME text is parsed again - the
+            # second result must still be the printed object (a parser must not share structure between results)
+            try:
+                _clobber(obj2)
+                obj3, exc3 = guarded(lambda: parser(text))
+                if exc3 != "none":
+                    ev["exc"] = "reparse_" + exc3
+                elif absfn(obj3) != ev["parsed"]:
+                    ev["parsed"] = absfn(obj3)
+            except Exception:
+                pass
     return ev
+
+
+def _clobber(x):
+    """modify a parsed object in place (it belongs to the caller)"""
+    import gambatools.cfg_algorithms as ca
+    from gambatools.cfg import CFG
+    if isinstance(x, CFG):
+        ca.cfg_make_rules_of_length_two_in_place(x)
+        ca.cfg_eliminate_terminals_in_place(x)
+        for r in x.R:
+            r.alternative.symbols.append(r.variable)
+        return
+    if hasattr(x, "delta"):
+        for k in list(x.delta)[:2]:
+            v = x.delta[k]
+            if isinstance(v, set):
+                v.clear()
+        if hasattr(x, "F") and isinstance(x.F, set):
+            x.F.clear()
+        x.Q.add("clobbered")
 
 
 def events(src, _n=[0]):
